@@ -428,6 +428,33 @@ def runtime_pins():
     return "[" + ", ".join('("%s", %s)' % (n, "true" if want.get(n) == have.get(n) else "false") for n in names) + "]"
 
 
+def run_outcome():
+    """MetaRunner.run: `asyncio.run(self._manage_runners())` inside one try statement; a KeyboardInterrupt ends the
+    run by a normal return, any other Exception becomes `RuntimeError(...) from err`, everything else (BaseExceptions)
+    leaves as it is; the finally clause only logs"""
+    from cobald.daemon.runners.meta_runner import MetaRunner
+    st = [x for x in _fn_body(MetaRunner.run) if not _is_log(x)]
+    if len(st) != 1 or not isinstance(st[0], ast.Try):
+        raise Untranslatable("run is not one try statement")
+    tr = st[0]
+    if [ast.unparse(x) for x in tr.body if not _is_log(x)] != ["asyncio.run(self._manage_runners())"] or tr.orelse:
+        raise Untranslatable("guarded call: %s" % [ast.unparse(x)[:50] for x in tr.body])
+    if any(not _is_log(x) for x in tr.finalbody):
+        raise Untranslatable("the finally clause does more than log")
+    pairs = []
+    for h in tr.handlers:
+        body_ = [x for x in h.body if not _is_log(x)]
+        if not body_:
+            act = "return"
+        elif len(body_) == 1 and isinstance(body_[0], ast.Raise) and body_[0].exc is not None and ast.unparse(body_[0].exc).startswith("RuntimeError(") \
+                and body_[0].cause is not None and ast.unparse(body_[0].cause) == h.name:
+            act = "raise RuntimeError from it"
+        else:
+            raise Untranslatable("handler %s: %s" % (ast.unparse(h.type), [ast.unparse(x)[:50] for x in body_]))
+        pairs.append((ast.unparse(h.type), act))
+    return "[" + ", ".join('("%s", "%s")' % kv for kv in pairs) + "]"
+
+
 def strs_lean(l):
     return "[" + ", ".join('"%s"' % x.replace("\\", "\\\\").replace('"', '\\"') for x in l) + "]"
 
@@ -508,6 +535,7 @@ def render():
     emit("daemonStart", "", "List String", daemon_start)
     emit("pipelineWalkShape", "", "Bool", pipeline_walk)
     emit("translatorKeys", "", "List String", translator_keys)
+    emit("runOutcome", "", "List (String × String)", run_outcome)
     emit("runtimePins", "", "List (String × Bool)", runtime_pins)
     out.append("/-- the function still reads as it did when the runtime model was transcribed from it -/\n"
                "def pinned (n : String) : Bool := (runtimePins.lookup n) == some true\n")
